@@ -7,6 +7,9 @@ from . import runner, api
 
 
 def run(prop, tier, seed, only=None, jobs=None, include=()):
+    from . import core
+
+    n_self = core.prover_selftest()  # raises (checker crash) if the prover accepts a false goal
     res = runner.run_property(prop, tier=tier, seed=seed, only=only, jobs=jobs, include=include)
     items = []
     notes = []
@@ -16,6 +19,7 @@ def run(prop, tier, seed, only=None, jobs=None, include=()):
                     {l for r in res for o in r["obligations"] for l in (o.get("lemmas") or [])})
     notes.append(f"BOUNDED python replays on the real libraries this run: {tot_runs} contract executions, "
                  f"{tot_checked} oracle comparisons (seeded; never counted as proved)")
+    notes.append(f"prover self-test: {n_self} goals (false ones not proved, valid ones proved) before any obligation")
     notes.append("Lean lemmas instantiated: " + ", ".join("WS." + l for l in lemmas))
     notes.append(f"contracts executed symbolically: {len(res)} (contract x scenario), paths explored: "
                  f"{sum(r.get('paths') or 0 for r in res)}, solver time {sum(r.get('solver_time_s') or 0 for r in res):.1f}s")
